@@ -8,7 +8,7 @@
                               xs = the views (related by R) of msgs in order, with the clock index threaded exactly as
                               _encode_message_set does (one reading per format-1 message without a timestamp) and the
                               offsets o, o+i, o+2i, ...
-     inner_view               R for messages inside a wrapper: uncompressed, view = plain_pmsg
+     inner_view wmagic        R for messages inside a wrapper of format wmagic: uncompressed, same format, view = plain_pmsg
      top_view orc             R for top-level messages: uncompressed -> SPlain; codec gzip/snappy -> the value inflates
                               (by the oracle) to the encoding of a set of uncompressed messages -> SWrap with their views
      parts_view / topics_view the same threading over partitions and topics, mirroring encode_produce_partitions/topics *)
@@ -116,14 +116,14 @@ Proof.
 Qed.
 
 (* ---- inside a wrapper: uncompressed messages only ---- *)
-Definition inner_view (now off : Z) (m : message) (x : pmsg) : Prop :=
-  codec_of (m_attr m) = 0 /\ msg_ok m = true /\ x = plain_pmsg off now m.
+Definition inner_view (wmagic : Z) (now off : Z) (m : message) (x : pmsg) : Prop :=
+  codec_of (m_attr m) = 0 /\ m_magic m = wmagic /\ msg_ok m = true /\ x = plain_pmsg off now m.
 
-Lemma inner_one now off m x e :
-  inner_view now off m x -> encode_message now m = Ok e -> sp_inner off e = Some x.
+Lemma inner_one wmagic now off m x e :
+  inner_view wmagic now off m x -> encode_message now m = Ok e -> sp_inner wmagic off e = Some x.
 Proof.
-  intros (C & OK & ->) E. unfold sp_inner. rewrite (sp_message_encoded _ _ _ off E OK).
-  cbn [p_attr plain_pmsg]. rewrite C. reflexivity.
+  intros (C & M & OK & ->) E. unfold sp_inner. rewrite (sp_message_encoded _ _ _ off E OK).
+  cbn [p_attr p_magic plain_pmsg]. rewrite C, M, !Z.eqb_refl. reflexivity.
 Qed.
 
 (* the views of a list of uncompressed messages, as a function *)
@@ -135,13 +135,17 @@ Fixpoint plain_views (clock : nat -> Z) (k : nat) (o i : Z) (msgs : list message
 
 Definition uncompressed (m : message) : bool := (codec_of (m_attr m) =? 0) && msg_ok m.
 
-Lemma plain_views_view clock msgs : forall k o i,
-  forallb uncompressed msgs = true -> set_view inner_view clock k o i msgs (plain_views clock k o i msgs).
+Definition same_format (wmagic : Z) (msgs : list message) : bool := forallb (fun m => m_magic m =? wmagic) msgs.
+
+Lemma plain_views_view wmagic clock msgs : forall k o i,
+  forallb uncompressed msgs = true -> same_format wmagic msgs = true ->
+  set_view (inner_view wmagic) clock k o i msgs (plain_views clock k o i msgs).
 Proof.
-  induction msgs as [|m r IH]; intros k o i H; cbn [plain_views]; [constructor|].
+  induction msgs as [|m r IH]; intros k o i H F; cbn [plain_views]; [constructor|].
   cbn [forallb] in H. apply andb_prop in H. destruct H as [Hm Hr].
+  unfold same_format in F. cbn [forallb] in F. apply andb_prop in F. destruct F as [Fm Fr]. apply Z.eqb_eq in Fm.
   unfold uncompressed in Hm. apply andb_prop in Hm. destruct Hm as [C OK]. apply Z.eqb_eq in C.
-  constructor; [repeat split; assumption|apply IH; exact Hr].
+  constructor; [repeat split; assumption|apply IH; assumption].
 Qed.
 
 (* ---- top level ---- *)
@@ -155,7 +159,7 @@ Definition top_view (orc : oracle) (now off : Z) (m : message) (s : smsg) : Prop
    (exists z e inner iclock ik ioff iincr imagic xs,
       m_value m = Some z /\ inflates orc (m_attr m) z e /\
       encode_message_set_from iclock ik inner ioff iincr imagic = Ok e /\
-      set_view inner_view iclock ik ioff iincr inner xs /\
+      set_view (inner_view (m_magic m)) iclock ik ioff iincr inner xs /\
       s = SWrap (plain_pmsg off now m) xs)).
 
 Lemma inflates_decompress orc attr z e : inflates orc attr z e -> decompress orc (codec_of attr) z = Some e.
@@ -172,10 +176,11 @@ Lemma top_one orc now off m s e :
   top_view orc now off m s -> encode_message now m = Ok e -> sp_outer orc off e = Some s.
 Proof.
   intros (OK & [(C & ->)|(z & ie & inner & iclock & ik & ioff & iincr & imagic & xs & V & I & E & SV & ->)]) Em;
-    unfold sp_outer; rewrite (sp_message_encoded _ _ _ off Em OK); cbn [p_attr p_value plain_pmsg].
+    unfold sp_outer; rewrite (sp_message_encoded _ _ _ off Em OK); cbn [p_attr p_value p_magic plain_pmsg].
   - rewrite C. reflexivity.
   - rewrite (inflates_codec _ _ _ _ I), V, (inflates_decompress _ _ _ _ I).
-    rewrite (sp_set_encoded inner_view sp_inner iclock inner_one inner ik ioff iincr imagic ie xs (length ie) E SV
+    rewrite (sp_set_encoded (inner_view (m_magic m)) (sp_inner (m_magic m)) iclock (inner_one (m_magic m))
+               inner ik ioff iincr imagic ie xs (length ie) E SV
                (encoded_set_length _ _ _ _ _ _ _ E)).
     reflexivity.
 Qed.
@@ -360,29 +365,60 @@ Qed.
 
 (* ------------------------------------------------------------------ wrappers built by create_gzip_message /
    create_snappy_message (kafkacodec.py:1183-1219) and the sets built by create_message_set, as the Producer does *)
+(* the only hypothesis on compression: on byte strings, inflating what was deflated gives it back, and the
+   deflated form is a byte string *)
 Definition oracle_gzip_ok (orc : oracle) : Prop :=
-  forall x z, gz_enc orc x = Ok z -> gz_dec orc z = Ok x /\ bytes_ok z = true.
+  forall x z, bytes_ok x = true -> gz_enc orc x = Ok z -> gz_dec orc z = Ok x /\ bytes_ok z = true.
+
+Lemma encoded_message_bytes now m e : encode_message now m = Ok e -> msg_ok m = true -> bytes_ok e = true.
+Proof.
+  intros E OK. pose proof (encode_message_parts now m e E) as p.
+  unfold msg_ok in OK. apply andb_prop in OK. destruct OK as [Hk Hv].
+  rewrite (encoded_eq _ _ _ p), bytes_ok_app, (body_bytes _ _ _ p Hk Hv), andb_true_r.
+  apply bytes_ok_Forall, enc_be_bytes.
+Qed.
+
+Lemma encoded_set_bytes clock msgs : forall k offset incr magic bs,
+  encode_message_set_from clock k msgs offset incr magic = Ok bs ->
+  forallb msg_ok msgs = true -> bytes_ok bs = true.
+Proof.
+  induction msgs as [|m r IH]; intros k offset incr magic bs E H.
+  - cbn in E. injection E as <-. reflexivity.
+  - destruct (encode_set_cons _ _ _ _ _ _ _ _ E) as (e & h & t & E1 & E2 & E3 & ->).
+    cbn [forallb] in H. apply andb_prop in H. destruct H as [Hm Hr].
+    destruct (pack_list2 _ _ _ _ _ E2) as (a & b & Pa & Pb & ->).
+    rewrite !bytes_ok_app, (pack_bytes _ _ _ Pa), (pack_bytes _ _ _ Pb), (encoded_message_bytes _ _ _ E1 Hm),
+      (IH _ _ _ _ _ E3 Hr). reflexivity.
+Qed.
+
+Lemma uncompressed_msg_ok msgs : forallb uncompressed msgs = true -> forallb msg_ok msgs = true.
+Proof.
+  intros H. apply forallb_forall. intros m I. rewrite forallb_forall in H. specialize (H m I).
+  unfold uncompressed in H. apply andb_prop in H. tauto.
+Qed.
 
 Lemma codec_gzip : codec_of CODEC_GZIP = 1. Proof. reflexivity. Qed.
 
 Lemma created_gzip_view orc clock k msgs magic wmsg now off :
   oracle_gzip_ok orc ->
   create_gzip_message orc clock k msgs magic = Ok wmsg ->
-  forallb uncompressed msgs = true ->
+  forallb uncompressed msgs = true -> same_format magic msgs = true ->
   top_view orc now off wmsg (SWrap (plain_pmsg off now wmsg) (plain_views clock k 0 0 msgs)).
 Proof.
-  intros OR C U. unfold create_gzip_message, create_compressed_message in C.
+  intros OR C U SF. unfold create_gzip_message, create_compressed_message in C.
   destruct (encode_message_set clock k msgs None 0) as [e|] eqn:E; cbn [bind] in C; [|discriminate].
   destruct (gz_enc orc e) as [z|] eqn:Z; cbn [bind] in C; [|discriminate].
-  destruct (OR e z Z) as [D B].
-  assert (W : m_value wmsg = Some z /\ m_key wmsg = None /\ m_attr wmsg = CODEC_GZIP).
+  assert (Be : bytes_ok e = true).
+  { cbn [encode_message_set] in E. eapply encoded_set_bytes; [exact E|]. apply uncompressed_msg_ok. exact U. }
+  destruct (OR e z Be Z) as [D B].
+  assert (W : m_value wmsg = Some z /\ m_key wmsg = None /\ m_attr wmsg = CODEC_GZIP /\ m_magic wmsg = magic).
   { destruct (magic =? 1); injection C as <-; repeat split. }
-  destruct W as (Wv & Wk & Wa).
+  destruct W as (Wv & Wk & Wa & Wm).
   split.
   - unfold msg_ok. rewrite Wv, Wk. cbn [obytes_ok andb]. exact B.
   - right. exists z, e, msgs, clock, k, 0, 0, 0, (plain_views clock k 0 0 msgs).
     split; [exact Wv|]. split; [left; rewrite Wa; split; [exact codec_gzip|exact D]|].
-    split; [exact E|]. split; [apply plain_views_view; exact U|reflexivity].
+    split; [exact E|]. split; [rewrite Wm; apply plain_views_view; assumption|reflexivity].
 Qed.
 
 (* the messages create_message_set builds from (key, payloads) requests are uncompressed byte-string messages *)
@@ -454,11 +490,15 @@ Theorem created_set_view orc clock reqs codec magic ms eclock ek :
   oracle_gzip_ok orc ->
   create_message_set orc clock reqs codec magic = Ok ms ->
   forallb request_ok reqs = true ->
-  codec = CODEC_NONE \/ codec = CODEC_GZIP ->
+  codec = CODEC_NONE \/ codec = CODEC_GZIP -> magic = 0 \/ magic = 1 ->
   top_set_view orc eclock ek 0 0 ms (created_views clock reqs codec magic ms) /\
   (forall m, In m ms -> uses_clock m = false).
 Proof.
-  intros OR C RQ CD. unfold create_message_set in C. unfold created_views.
+  intros OR C RQ CD MG. unfold create_message_set in C. unfold created_views.
+  assert (SF : same_format magic (create_messages clock reqs magic) = true).
+  { unfold same_format. apply forallb_forall. intros m I. unfold create_messages in I.
+    apply in_map_iff in I. destruct I as ((i & (key & p)) & <- & _). unfold create_message.
+    destruct MG as [-> | ->]; reflexivity. }
   pose proof (created_messages_uncompressed clock reqs magic RQ) as U.
   pose proof (created_have_ts clock reqs magic) as NC.
   set (inner := create_messages clock reqs magic) in *.
@@ -476,8 +516,15 @@ Proof.
       - rewrite andb_false_r. reflexivity.
       - rewrite M. reflexivity. }
     split.
-    + pose proof (created_gzip_view orc clock _ inner magic w 0 0 OR G U) as V.
+    + pose proof (created_gzip_view orc clock _ inner magic w 0 0 OR G U SF) as V.
       destruct (top_view_no_clock orc 0 (eclock ek) 0 w _ UW V) as [V' _].
       constructor; [exact V'|constructor].
     + intros m [<-|[]]. exact UW.
+Qed.
+
+(* the marker oracle of Model.MsgSet (used by the non-vacuity Examples) satisfies the hypothesis *)
+Lemma marker_oracle_ok : oracle_gzip_ok marker_oracle.
+Proof.
+  intros x z B E. cbn in E. injection E as <-. split; [reflexivity|].
+  cbn [bytes_ok forallb]. unfold bytes_ok in B. rewrite B. reflexivity.
 Qed.
